@@ -22,6 +22,12 @@ def test_suite():
     return unittest.defaultTestLoader.loadTestsFromTestCase(T)
 '''
 
+PY_FAIL_STUB = '''\
+import vworld_rt
+vworld_rt.file_imported(__name__, __file__)
+raise ImportError('this test module cannot be imported: ' + __name__)
+'''
+
 INIT_STUB = '''\
 import vworld_rt
 vworld_rt.file_imported(__name__, __file__)
@@ -104,6 +110,8 @@ def write_tree(root, files, order=None):
         with open(p, 'w') as f:
             if kind == 'py':
                 f.write(PY_STUB)
+            elif kind == 'pyfail':
+                f.write(PY_FAIL_STUB)
             elif kind == 'init':
                 f.write(INIT_STUB)
             else:
